@@ -26,7 +26,8 @@ import (
 
 type File struct {
 	// Kind: "text" (a file with Content), "missing" (path does not exist), "dir" (a directory),
-	// "pipe" (Content arrives through an inherited pipe named as /dev/fd/N: readable, but not a regular file and of size 0 to stat).
+	// "pipe" (Content arrives through an inherited pipe named as /dev/fd/N: readable, but not a regular file and of size 0 to stat),
+	// "unreadable" (/proc/self/mem: exists, opens, but reading it fails).
 	Kind    string `json:"kind"`
 	Content string `json:"content,omitempty"`
 	Long    bool   `json:"long_flag,omitempty"` // --patch-file instead of -p
@@ -112,6 +113,9 @@ func drawFor(binary string) func(t *rapid.T) Case {
 				f.Kind = "missing"
 			case k == 1:
 				f.Kind = "dir"
+				if rapid.Bool().Draw(t, "unreadable") {
+					f.Kind = "unreadable"
+				}
 			case k == 2:
 				f.Content = rapid.SampledFrom([]string{"", "[", "{}", "[{\"op\":\"add\"}]", "[{\"op\":\"nop\",\"path\":\"/a\"}]", "null x", "[{\"op\":\"add\",\"path\":\"/a\",\"value\":1}"}).Draw(t, "malformed")
 			case k == 3: // valid but failing
@@ -240,8 +244,11 @@ func runCLI(c Case) (result, error) {
 		}
 	}()
 	for i, f := range c.Files {
-		p := filepath.Join(dir, fmt.Sprintf("p%d.json", i))
+		// names a shell would mangle, passed without a shell: they are just names
+		p := filepath.Join(dir, fmt.Sprintf("p%d$HOME ${x} %%s.json", i))
 		switch f.Kind {
+		case "unreadable":
+			p = "/proc/self/mem"
 		case "pipe":
 			if len(f.Content) > 32000 {
 				return result{}, fmt.Errorf("pipe content too large for one pipe buffer")
